@@ -854,6 +854,18 @@ impl BigDecimal {
 
         let target_precision = DEFAULT_PRECISION;
 
+        if self.is_negative() {
+            // the terms of the series alternate in sign for negative values,
+            // cancelling the significant digits: use e^-x = 1/e^x
+            let ctx = Context::default().with_rounding_mode(RoundingMode::HalfUp);
+            return self.abs().exp_series(target_precision).inverse_with_context(&ctx);
+        }
+
+        self.exp_series(target_precision).with_prec(target_precision)
+    }
+
+    /// Sum the series of e<sup>x</sup>, returning (target_precision + 5) digits
+    fn exp_series(&self, target_precision: u64) -> BigDecimal {
         let precision = self.digits();
 
         let mut term = self.clone();
@@ -869,7 +881,7 @@ impl BigDecimal {
 
             let trimmed_result = result.with_prec(target_precision + 5);
             if prev_result == trimmed_result {
-                return trimmed_result.with_prec(target_precision);
+                return trimmed_result;
             }
             prev_result = trimmed_result;
         }
